@@ -18,9 +18,14 @@ EXPLANATION = (
     "product with the mask (y_pred>eps)&(y_pred<1-eps) computed on the raw parameter; (d) the return_grad paths return "
     "pairs, the others never do, and no path falls off the end; (e) the Wasserstein dual potentials are paired with the "
     "marginals of the same emd2 call (u with the first, v with the second; the k2 update is the mirror of the k1 update). "
-    "Not decided: that the hand-derived blocks equal the derivative.")
+    "(g) the returned gradient IS the derivative of the returned score: evaluate() is translated to index-notation terms "
+    "(gcverif.e8_numpy), the score term is differentiated symbolically with respect to y[m,j] and compared, as canonical forms "
+    "(gcverif.e8_index), with the gradient term; a difference that does not depend on j (a per-sample constant) is accepted "
+    "since it vanishes along the simplex. This covers all 6 classes x 2 modes including the Wasserstein loops (emd2 as an opaque "
+    "function with its dual potentials) and the MMD zero-distance masks; all n and K at once (sizes are symbols).")
+from ..e8_gemini import ASSUMPTIONS as E8_ASSUMPTIONS
 ASSUMPTIONS = ["numpy broadcasting/reduction shape semantics as encoded in gcverif/e3_numpy.py",
-               "ot.emd2(a, b, M, log=True) returns (cost, {'u': dual of a, 'v': dual of b})"]
+               "ot.emd2(a, b, M, log=True) returns (cost, {'u': dual of a, 'v': dual of b})"] + E8_ASSUMPTIONS
 
 
 def evaluate_func(pm, cname):
@@ -84,6 +89,34 @@ def is_raw_mask(expr, cfg, at, param="y_pred"):
     return True, ""
 
 
+def gradient_is_derivative(pm, ctx):
+    from ..e8_gemini import check_gradient, check_same_score
+    from ..e8_index import Unsupported
+    for cname in GEMINI_CLASSES:
+        ci, f = evaluate_func(pm, cname)
+        for ovo in (False, True):
+            site = f"{cname}.evaluate[ovo={ovo}]: gradient = d(score)/d(y_pred)"
+            try:
+                status, detail = check_gradient(pm, cname, ovo)
+                same = check_same_score(pm, cname, ovo)
+            except Unsupported as e:
+                ctx.unrecognised("C02-g", site, f"outside the translated numpy subset: {e}")
+                continue
+            except RecursionError:
+                ctx.unrecognised("C02-g", site, "term too deep")
+                continue
+            if not same:
+                ctx.violation("C02-g", ci.unit.relpath, f"{cname}.evaluate", f"score[ovo={ovo}]", "the score returned with the gradient is a different "
+                              "function of the predictions than the score returned alone", line=f.lineno, site=site + " (same score)")
+            if status in ("exact", "tangent"):
+                ctx.ok("C02-g", site, status + (": " + detail if detail else ""))
+            elif status == "undecided":
+                ctx.undecided_site("C02-g", site, detail)
+            else:
+                ctx.violation("C02-g", ci.unit.relpath, f"{cname}.evaluate", f"gradient[ovo={ovo}]", f"the returned gradient is not the derivative of the "
+                              f"returned score ({'one-vs-one' if ovo else 'one-vs-all'}): {detail}", line=f.lineno, site=site)
+
+
 def run(pm, ctx):
     ctx.rule("C02-a", "the score must be the same whether or not the gradient is requested", floor=12)
     ctx.rule("C02-b", "the gradient must have the shape [N,K] of the predictions for every n and K (incl. length-1 axes)", floor=12)
@@ -91,6 +124,8 @@ def run(pm, ctx):
              "multiplied by the clip mask of the raw predictions", floor=12)
     ctx.rule("C02-d", "return_grad=True returns (score, gradient) on every path; otherwise a bare score", floor=6)
     ctx.rule("C02-e", "Wasserstein gradients must use the dual potential of the marginal they differentiate", floor=3)
+    ctx.rule("C02-g", "the returned gradient is the symbolic derivative of the returned score (up to a per-sample constant)", floor=12)
+    gradient_is_derivative(pm, ctx)
     for cname in GEMINI_CLASSES:
         ci, f = evaluate_func(pm, cname)
         unit = ci.unit
@@ -401,4 +436,24 @@ def controls(pm, tier):
                 return {ci.unit.relpath: replace_node(ci.unit, n.value, norm_src(n.value.elts[1]))}
         return None
     out.append({"name": "TV returns only the gradient", "rule": "C02-d", "apply": bare_return})
+
+    def tmut(mod, find, repl, name):
+        def apply(pm_):
+            u = pm_.unit(mod)
+            if find not in u.src:
+                return None
+            return {u.relpath: u.src.replace(find, repl, 1)}
+        out.append({"name": name, "rule": "C02-g", "apply": apply})
+    F, G = "gemclus.gemini._fdivergences", "gemclus.gemini._geomdistances"
+    tmut(F, "                gradients = -0.5 * (p_y / cluster_wise_estimates", "                gradients = 0.5 * (p_y / cluster_wise_estimates", "Hellinger one-vs-all gradient sign")
+    tmut(F, "gradient_mi = log_p_y_x / log_p_y_x.shape[0] - log_p_y / log_p_y_x.shape[0]", "gradient_mi = log_p_y_x / log_p_y_x.shape[0] - log_p_y / log_p_y_x.shape[1]",
+         "KL gradient divides by K")
+    tmut(F, "cross_prod_grad = base_grad - np.transpose(base_grad, axes=[0, 2, 1])", "cross_prod_grad = base_grad + np.transpose(base_grad, axes=[0, 2, 1])", "TV one-vs-one antisymmetry lost")
+    tmut(F, "gradients = 2*single_beta-double_alpha  + np.mean(2*single_alpha-double_beta, axis=0)", "gradients = 2*single_beta-double_alpha  + np.mean(single_alpha-double_beta, axis=0)",
+         "chi2 one-vs-one second-order term")
+    tmut(G, "                gradient -= A * Lambda.sum(0, keepdims=True) / N", "                gradient -= A * Lambda.sum(0, keepdims=True)", "MMD one-vs-one term loses 1/N")
+    tmut(G, "                tau_grad = (np.eye(N) - 1 / N) @ normalised_kernel @ (alpha - 1)", "                tau_grad = normalised_kernel @ (alpha - 1)", "MMD one-vs-all centring dropped")
+    tmut(G, "                grads -= (y_pred * u_bar).sum(0) / (N * N * pi)", "                grads -= (y_pred * u_bar).sum(0) / (N * pi)", "Wasserstein one-vs-all chain term")
+    tmut(G, "                        grads[:, k2] += 2 * pi[k1] * (v_bar / N", "                        grads[:, k2] += 2 * pi[k1] * (u_bar / N", "Wasserstein one-vs-one uses u for the second marginal")
+    tmut(G, "                grads += 2 * np.dot(wasserstein_distances, pi) / N", "                grads += np.dot(wasserstein_distances, pi) / N", "Wasserstein one-vs-one pi term factor")
     return out
